@@ -162,7 +162,10 @@ def gen_case(seed, idx, tier="quick"):
             "hs_a": a, "hs_b": b, "faults": rng.random() < cfg["fault_p"], "reader_chunk": rng.choice([1, 16, 256]), "warm": rng.random() < 0.3,
             # schedule of the importer's cooperating consumers (see bcsim/coop.py) and read-fault enumeration
             "sched_seed": rng.randrange(2 ** 31) if rng.random() < 0.5 else None,
-            "read_faults": rng.choice(MODES) if rng.random() < cfg["fault_p"] * 1.5 else None}
+            "read_faults": rng.choice(MODES) if rng.random() < cfg["fault_p"] * 1.5 else None,
+            # earlier activity on the SAME live objects: they were exported in the other flavour (other translation table)
+            # and / or asked for their protein under both tables before the export under test
+            "warm_other": rng.choice([None, None, "export", "translate", "both"])}
 
 
 # ---------------------------------------------------------------------------------------------------------------
@@ -194,6 +197,19 @@ def h_export(req):
                 [t.get_protein_sequence() for g in c.genes for t in g.transcripts if t.cds]
             except Exception:
                 pass
+    if case.get("warm_other"):
+        from inscripta.biocantor.gene.codon import TranslationTable
+
+        other = dict(case, flavor="EUKARYOTIC" if case["flavor"] == "PROKARYOTIC" else "PROKARYOTIC", update_translations=True)
+        try:
+            if case["warm_other"] in ("translate", "both"):
+                for tt in (TranslationTable.PROKARYOTE, TranslationTable.STANDARD, TranslationTable.DEFAULT):
+                    [t.get_protein_sequence(translation_table=tt) for c in colls for g in c.genes for t in g.transcripts if t.cds]
+            if case["warm_other"] in ("export", "both"):
+                _export(colls, other, simdisk.SimWriter())
+            out["warm_other"] = case["warm_other"]
+        except Exception as e:
+            out["warm_other_error"] = type(e).__name__
     if case.get("prior"):
         # earlier activity in this exporter process: a strain twin (same annotation, other bases) was exported first
         try:
@@ -749,6 +765,7 @@ def run_case(case):
             if rec["outcome"] == "returned_wrong":
                 fs.append({"inv": "read_fault", "what": "returned_other_result_after_read_error", "detail": f"k={rec['k']}", "flavor": case["flavor"]})
     stats["stale_exporter"] += int("prior_text" in a)
+    stats["warm_other"] += int(bool(a.get("warm_other")))
     stats["stale_importer"] += int(bool(imp.get("prior_parsed")))
     stats["hashseed_differs"] += int(case["hs_a"] != case["hs_b"])
     stats["parses"] += 3
@@ -952,6 +969,7 @@ def evidence(agg, tier, seed, wall, batches):
             "files_where_every_k_was_enumerated": st["write_fault_enumerated_all"], "max_writes_per_file_W": st["W_max"],
             "short_read(reader chunking 1/16/256 chars)": st["parses"], "hashseed(importer differs)": st["hashseed_differs"],
             "stale_exporter(exported a strain twin earlier in the same process)": st["stale_exporter"],
+            "same_objects_used_under_the_other_flavour_or_table_before_the_export": st["warm_other"],
             "stale_importer(parsed another file earlier in the same process)": st["stale_importer"],
             "files_whose_text_differs_between_hash_seeds(set order of qualifiers)": st["files_differing_in_text_across_hashseeds(qualifier order)"],
             "interleaved_consumers(episodes where 2-4 lazy parsers were stepped by the seeded scheduler)": st["sched_episodes"],
